@@ -455,3 +455,21 @@ claim("C22",
                 "`_get`, `set`, `_resolution_lock` and on mechanically extracted sections (pyvc + z3, ghost call log "
                 "for the re-entrant resolve()); lock-discipline contract decided on the AST; bounded native "
                 "interleaving scenario as cross-check and replay")
+
+claim("C29",
+      "BOUNDED stand-in, nothing is proved: merge_generators, debounced_sorted_prefix and Debouncer are async "
+      "generators over tasks and asyncio.wait, which pyvc cannot execute symbolically (no generator protocol, no task "
+      "model). The statement itself is evaluated as a run-time checked contract on the real functions (loaded from "
+      "the file on every run) over an exhaustively enumerated family of schedules under a virtual clock, so that "
+      "arrivals coincide exactly with the window deadlines: every yielded sequence is (the items that arrived inside "
+      "the window, sorted) followed by (the later items in arrival order), with every item exactly once, no item "
+      "that arrived inside the window passed through and none that arrived after it closed sorted in (fix 78cbc59: "
+      "an item delivered between the closing of the window and the flush overtook the burst); merge_generators yields "
+      "every item of every source once, in source order, and re-raises a source's error.",
+      "Everything outside the enumeration (longer streams, other delays, more than three sources, tie orders a real "
+      "clock could produce, stop_on_first_completion) is not covered; an arrival exactly at the closing instant may go "
+      "either way (the statement does not say).",
+      category="exploration",
+      technique="bounded stand-in for contract verification: run-time checked contract (the property's own "
+                "postcondition) on the real async generators over an exhaustive enumeration of arrival schedules under "
+                "a virtual event-loop clock; a deductive proof is out of pyvc's reach (generators, tasks)")
